@@ -8,6 +8,7 @@ import (
 	"encoding/json"
 	"flag"
 	"fmt"
+	"github.com/yaricom/goNEAT/v4/experiment"
 	"hash"
 	"math"
 	"math/rand"
@@ -119,7 +120,7 @@ var ballast [][]byte
 
 // perturb does work that must not influence a seeded run.
 func perturb(k int, round int) {
-	switch k % 4 {
+	switch k % 5 {
 	case 1: // heap ballast of odd sizes: shifts every later allocation
 		for i := 0; i < 200+round*37; i++ {
 			ballast = append(ballast, make([]byte, 1000+i*13))
@@ -151,6 +152,121 @@ func perturb(k int, round int) {
 	}
 }
 
+// unrelatedEvolution turns over another population built like the scenario's own (same constructor, same start genome: its
+// structural mutations collide with the scenario's), seeded from the clock.  The caller re-seeds afterwards.
+func unrelatedEvolution(sc scenario, epochs int) {
+	rand.Seed(time.Now().UnixNano())
+	opts := sc.options()
+	rec := &epochRec{in: newInterner(), stats: map[string]int{}}
+	p, _, _, err := construct(sc, opts, rec)
+	if err != nil || p == nil {
+		return
+	}
+	ex := &genetics.SequentialPopulationEpochExecutor{}
+	for g := 1; g <= epochs; g++ {
+		for i, o := range p.Organisms {
+			o.Fitness = float64(i%4) + rand.Float64()
+		}
+		failed := false
+		_ = vhu.Guard(func() { failed = ex.NextEpoch(neat.NewContext(context.Background(), opts), g, p) != nil })
+		if failed {
+			break
+		}
+	}
+}
+
+func epochSeed(sc scenario, gen int) int64 { return sc.Seed*1000003 + int64(gen)*7919 }
+
+// digestEvaluator drives a scenario through experiment.Execute: deterministic fitness, one digest line per generation.
+type digestEvaluator struct {
+	sc     scenario
+	si     int
+	pk     int
+	frng   *rand.Rand
+	emit   func(map[string]interface{})
+	epochs *int
+}
+
+func (d *digestEvaluator) GenerationEvaluate(_ context.Context, pop *genetics.Population, epoch *experiment.Generation) error {
+	line := map[string]interface{}{"sc": d.si, "gen": epoch.TrialId*1000 + epoch.Id, "how": "Execute", "err": false}
+	for k, v := range popDigests(pop) {
+		line[k] = v
+	}
+	d.emit(line)
+	*d.epochs++
+	assignFitness(pop, d.sc.Fitness, d.frng, epoch.Id+1)
+	epoch.FillPopulationStatistics(pop)
+	if d.pk%5 == 3 {
+		runtime.GC()
+	}
+	return nil
+}
+
+// runDetScenario records one scenario (emit == nil: a throw-away run that leaves no lines)
+func runDetScenario(si int, sc scenario, pk int, emit func(map[string]interface{}), epochs *int) {
+	if emit == nil {
+		emit = func(map[string]interface{}) {}
+	}
+	rand.Seed(sc.Seed)
+	opts := sc.options()
+	if sc.Via == "execute" {
+		// the way every caller of the library evolves a population: seed the global source, then Experiment.Execute
+		// (RandSeed left at its zero value, as in all the repository's tests and examples)
+		opts.NumRuns, opts.NumGenerations = 2, sc.Epochs
+		rec := &epochRec{in: newInterner(), stats: map[string]int{}}
+		_, start, _, err := construct(sc, opts, rec)
+		if err != nil || start == nil {
+			emit(map[string]interface{}{"sc": si, "gen": 0, "how": "Execute", "err": true})
+			return
+		}
+		rand.Seed(sc.Seed)
+		exp := experiment.Experiment{Id: 1}
+		ev := &digestEvaluator{sc: sc, si: si, pk: pk, frng: rand.New(rand.NewSource(sc.Seed*31 + 5)), emit: emit, epochs: epochs}
+		var eerr error
+		panicked := vhu.Guard(func() { eerr = exp.Execute(neat.NewContext(context.Background(), opts), start, ev, nil) })
+		emit(map[string]interface{}{"sc": si, "gen": 999999, "how": "Execute returned", "err": eerr != nil || panicked != ""})
+		return
+	}
+	ctx := neat.NewContext(context.Background(), opts)
+	rec := &epochRec{in: newInterner(), stats: map[string]int{}}
+	pop, _, how, err := construct(sc, opts, rec)
+	line := map[string]interface{}{"sc": si, "gen": 0, "how": how, "err": err != nil}
+	if err != nil || pop == nil {
+		emit(line)
+		return
+	}
+	for k, v := range popDigests(pop) {
+		line[k] = v
+	}
+	emit(line)
+	ex := &genetics.SequentialPopulationEpochExecutor{}
+	frng := rand.New(rand.NewSource(sc.Seed*31 + 5))
+	for gen := 1; gen <= sc.Epochs; gen++ {
+		assignFitness(pop, sc.Fitness, frng, gen)
+		if sc.Reseed {
+			// identical seed before every epoch in every process; perturbed processes evolve something else in between
+			if pk%5 == 2 || pk%5 == 4 {
+				unrelatedEvolution(sc, 2)
+			}
+			rand.Seed(epochSeed(sc, gen))
+		}
+		var eerr error
+		panicked := vhu.Guard(func() { eerr = ex.NextEpoch(ctx, gen, pop) })
+		line := map[string]interface{}{"sc": si, "gen": gen, "how": "NextEpoch", "err": eerr != nil || panicked != ""}
+		for k, v := range popDigests(pop) {
+			line[k] = v
+		}
+		emit(line)
+		*epochs++
+		if eerr != nil || panicked != "" {
+			break
+		}
+		if pk%5 == 3 && gen%2 == 0 {
+			runtime.GC()
+		}
+	}
+}
+
 func recordDigests(args []string) int {
 	fs := flag.NewFlagSet("record-digests", flag.ExitOnError)
 	out := fs.String("out", "", "NDJSON file")
@@ -173,39 +289,17 @@ func recordDigests(args []string) int {
 	epochs := 0
 	for si, sc := range scs {
 		perturb(*pk, si)
-		rand.Seed(sc.Seed)
-		opts := sc.options()
-		ctx := neat.NewContext(context.Background(), opts)
-		rec := &epochRec{in: newInterner(), stats: map[string]int{}}
-		pop, _, how, err := construct(sc, opts, rec)
-		line := map[string]interface{}{"sc": si, "gen": 0, "how": how, "err": err != nil}
-		if err != nil || pop == nil {
-			_ = enc.Encode(line)
-			continue
-		}
-		for k, v := range popDigests(pop) {
-			line[k] = v
-		}
-		_ = enc.Encode(line)
-		ex := &genetics.SequentialPopulationEpochExecutor{}
-		frng := rand.New(rand.NewSource(sc.Seed*31 + 5))
-		for gen := 1; gen <= sc.Epochs; gen++ {
-			assignFitness(pop, sc.Fitness, frng, gen)
-			var eerr error
-			panicked := vhu.Guard(func() { eerr = ex.NextEpoch(ctx, gen, pop) })
-			line := map[string]interface{}{"sc": si, "gen": gen, "how": "NextEpoch", "err": eerr != nil || panicked != ""}
-			for k, v := range popDigests(pop) {
-				line[k] = v
+		if *pk%5 == 4 {
+			// earlier work in the process: the very same scenario was already run once (throw-away), e.g. a population
+			// restored twice from the same file, or two experiments in one program
+			n := 0
+			short := sc
+			if short.Epochs > 6 {
+				short.Epochs = 6
 			}
-			_ = enc.Encode(line)
-			epochs++
-			if eerr != nil || panicked != "" {
-				break
-			}
-			if *pk%4 == 3 && gen%2 == 0 {
-				runtime.GC()
-			}
+			runDetScenario(si, short, *pk, nil, &n)
 		}
+		runDetScenario(si, sc, *pk, func(l map[string]interface{}) { _ = enc.Encode(l) }, &epochs)
 	}
 	rep := &vhu.Report{Command: "record-digests", Evaluations: epochs, Cases: len(scs)}
 	return rep.Write(*repf)
